@@ -63,7 +63,7 @@ theorem failed_handshake_no_session (cfg : Cfg) (cs ts : List Step) (hm : cfg.mo
 theorem caps_from_tls_only (cfg : Cfg) (cs ts : List Step) (hm : cfg.mode = .required)
     (h : (establish true cfg cs ts).2 = .ok ()) :
     ∃ t i, (establish true cfg cs ts).1.tls = some t ∧
-      t = ((⟨ts, true, [], [], false, i, false⟩ : Conn).ehlo cfg.hello).1 :=
+      t = ((Conn.fresh ts [] i).ehlo cfg.hello).1 :=
   ((establish_required cfg cs ts hm).2.1 h).2
 
 /-- `opportunistic` upgrades exactly when STARTTLS is offered. -/
